@@ -827,7 +827,7 @@ class LegCharge:
 
         """
         slices = np.array([(sl.start, sl.stop) for sl in qdict.values()], np.intp)
-        charges = np.array(list(qdict.keys()), dtype=QTYPE).reshape((-1, chargeinfo.qnumber))
+        charges = np.array(list(qdict.keys()), dtype=QTYPE).reshape((len(qdict), chargeinfo.qnumber))
         sort = np.argsort(slices[:, 0])  # sort by slice start
         slices = slices[sort, :]
         charges = charges[sort, :]
